@@ -331,6 +331,10 @@ impl Index for HnswIndex {
             }
         }
 
+        // A (re-)inserted id is live again: drop a pending tombstone, otherwise the
+        // rebuild below would filter the new vector out
+        self.tombstones.write().remove(&id);
+
         // Rebuild HNSW structure
         // Note: For better performance, we could batch inserts and rebuild less frequently
         self.rebuild_hnsw()?;
@@ -379,6 +383,7 @@ impl Index for HnswIndex {
                     vectors.push((*id, prepared));
                 }
             }
+            self.tombstones.write().remove(id);
         }
         // Single rebuild after all inserts (key optimization)
         self.rebuild_hnsw()
